@@ -1,5 +1,6 @@
 /- Counting lemmas for C02: constructor parameter counts vs manifold dimensions (all d, r). -/
 import Mathlib.Tactic
+import NumqiProofs.GellmannLemmas
 import NumqiModel.Manifold
 
 namespace Numqi.Manifold.Count
@@ -96,7 +97,37 @@ theorem sphereParam_coordinate (dim : Nat) (isReal : Bool) : sphereParam dim isR
 theorem probParam_eq (dim : Nat) (hd : 1 ≤ dim) : probParam dim = simplexDim dim + 1 := by
   simp [probParam, simplexDim]; omega
 
-theorem soParam_eq (dim : Nat) (isReal : Bool) : soParam dim isReal = soDim dim isReal := rfl
+/-- the SO/SU charts have exactly as many parameters as the Lie algebra has Gell-Mann generators:
+`d(d-1)/2 = #{i<j}` and `d²-1 = 2·#{i<j} + (d-1)` -/
+theorem soParam_eq (dim : Nat) (hd : 1 ≤ dim) (isReal : Bool) : soParam dim isReal = soDim dim isReal := by
+  have h1 := Gellmann.length_pairs (d := dim)
+  have h2 := Gellmann.length_diagIdx (d := dim)
+  obtain ⟨n, rfl⟩ : ∃ n, dim = n + 1 := ⟨dim - 1, by omega⟩
+  simp only [Nat.add_sub_cancel] at h1 h2
+  have h3 : (n + 1) * (n + 1) = (n + 1) * n + n + 1 := by ring
+  cases isReal <;> simp only [soParam, soDim, if_true, Bool.false_eq_true, if_false, Nat.add_sub_cancel, h2] <;> omega
+
+theorem length_triuPairs (dim : Nat) : 2 * (triuPairs dim).length = dim * (dim + 1) := by
+  have h1 : (triuPairs dim).length = ∑ r ∈ Finset.range dim, (dim - r) := by
+    unfold triuPairs
+    rw [List.length_flatMap]
+    simp only [List.length_map, List.length_range']
+    rw [← List.sum_toFinset _ List.nodup_range, List.toFinset_range]
+  have h2 : ∑ r ∈ Finset.range dim, (dim - r) = ∑ r ∈ Finset.range dim, (r + 1) := by
+    rw [← Finset.sum_range_reflect]
+    refine Finset.sum_congr rfl (fun r hr => ?_)
+    have := Finset.mem_range.1 hr; omega
+  have h3 := Finset.sum_range_id_mul_two dim
+  rw [h1, h2, Finset.sum_add_distrib]
+  simp only [Finset.sum_const, Finset.card_range, smul_eq_mul, mul_one]
+  cases dim with
+  | zero => simp
+  | succ k => simp only [Nat.add_sub_cancel] at h3; nlinarith [h3]
+
+/-- SymmetricMatrix: the parameter count is the number of independent real entries (`#{i ≤ j}` resp. `d²`), minus one if traceless -/
+theorem symParam_eq (dim : Nat) (isReal isTrace0 : Bool) : symParam dim isReal isTrace0 = symEntries dim isReal isTrace0 := by
+  have h := length_triuPairs dim
+  cases isReal <;> simp only [symParam, symEntries, if_true, Bool.false_eq_true, if_false] <;> omega
 
 /-- Stiefel qr / polar: `dr = (dr - r(r+1)/2) + r(r+1)/2`, `2dr = (2dr - r²) + r²` -/
 theorem stiefelParam_polar (dim rank : Nat) (h : rank ≤ dim) (isReal : Bool) :
